@@ -62,6 +62,12 @@ fn judge(outcome: &Outcome, what: &str, grammar: &str, text: &str, input: &Value
             sink.outcome(format!("{grammar}:{what}:panic"));
             sink.fail(format!("C04:panic:{}:{}", grammar_family(grammar), panic_site(message)), format!("{what}: panic: {message}\n--- input ---\n{text:?}"), input.clone());
         }
+        // A panic caught at a thread join surfaces as an "error" carrying the panic payload's
+        // debug form: not a readable error but a crash in disguise.
+        Outcome::Error { stage, message, .. } if message.contains("Any {") || message.contains("panicked at") => {
+            sink.outcome(format!("{grammar}:{what}:panic-behind-error"));
+            sink.fail(format!("C04:panic-behind-error:{}:{stage}", grammar_family(grammar)), format!("{what}: the run failed with the payload of a panic instead of a readable error: {}\n--- input ---\n{text:?}", first_line(message)), input.clone());
+        }
         Outcome::Error { stage, .. } => sink.outcome(format!("{grammar}:{what}:error-{stage}")),
         Outcome::Report { blocks, diags } => sink.outcome(format!("{grammar}:{what}:report:{}:{}", blocks.len().min(2), diags.len().min(2))),
     }
@@ -118,6 +124,41 @@ fn soup_check(kit: &'static Kit, toks: &[&'static str], seq: &[u8], sink: &Sink)
     }
     if seq.len() == 4 {
         sink.sample(|| input);
+    }
+}
+
+/// Content lines that are hostile to the validators rather than to the parsers.
+const RULE_LINES: &[&str] = &[
+    "nan", "NaN", "inf", "-inf", "1e999", "-0", "0x1F", "\u{661}\u{662}", "1_0", "", "   ", "\u{a0}", ".", "-", "+5", "9999999999999999999999999999999999999999", "é", "a\u{301}", "1 2", "\t3",
+];
+const RULE_TAGS: &[&str] = &[
+    "keep-sorted keep-sorted-format=\"numeric\"",
+    "keep-sorted=\"desc\" keep-sorted-format=\"numeric\" keep-sorted-pattern=\"(?P<value>\\S*)\"",
+    "keep-sorted keep-sorted-pattern=\"\\S*$\"",
+    "keep-unique=\"(?P<value>\\S*)\"",
+    "keep-unique",
+    "line-pattern=\"^\\p{L}*$\"",
+    "line-count=\">=0\"",
+];
+
+fn rule_soup_check(seq: &[u8], sink: &Sink) {
+    let lines: Vec<&str> = seq.iter().map(|&i| RULE_LINES[i as usize]).collect();
+    for (ti, tag) in RULE_TAGS.iter().enumerate() {
+        let mut text = format!("# <block {tag}>\n");
+        for l in &lines {
+            text.push_str(l);
+            text.push('\n');
+        }
+        text.push_str("# </block>\n");
+        let input = json!({"file": "x.py", "text": text, "rule": ti});
+        core::slot_write(&json!({"file": "x.py", "text": text}).to_string());
+        sink.exec();
+        let scan = librun::run(&Input { files: vec![("x.py".to_string(), text.clone())], ..Default::default() });
+        judge(&scan, "rule-scan", "rule-content", &text, &input, sink);
+        core::slot_clear();
+    }
+    if seq.len() >= 2 {
+        sink.nontrivial();
     }
 }
 
@@ -261,6 +302,16 @@ pub fn run(cfg: &Cfg, sink: &Arc<Sink>) -> Report {
             cfg.tier == Tier::Thorough,
         ));
     }
+    // Content hostile to the validators.
+    let rule_len = cfg.tier.pick(3, 4);
+    report.phase(engine::explore(
+        "rule-content soups",
+        &format!("all sequences of ≤{rule_len} content lines over {} validator-hostile lines (nan, inf, overflow, signed zero, non-ASCII digits, blanks, combining marks, …) × {} rule configurations, scan mode", RULE_LINES.len(), RULE_TAGS.len()),
+        Sequences { alphabet: RULE_LINES.len() as u8, max_len: rule_len, check: |seq: &[u8], sink: &Sink| rule_soup_check(seq, sink) },
+        sink,
+        cfg.threads,
+        false,
+    ));
     // One-mutation (thorough: two-insertion) neighbourhoods of the seeds.
     let mut cases = Vec::new();
     for (ki, kit) in KITS.iter().enumerate() {
